@@ -140,10 +140,14 @@ def get(name, ns=None, via="none", is_async=False, g=None):
     return {"op": "get", "name": name, "ns": ns, "ns_via": via, "async": is_async, "globals": g}
 
 
-add("C23", "open", "caching-fs:sync-hit-on-async-loaded-template:uptodate-is-coroutine",
-    "CachingFileSystemLoader with auto_reload: get_template_async('t1') then get_template('t1') raises LiquidError 'expected a boolean from uptodate, found coroutine' "
+add("C23", "fixed", "caching-fs:sync-hit-on-async-loaded-template:uptodate-is-coroutine",
+    "CachingFileSystemLoader with auto_reload: get_template_async('t1') then get_template('t1') raised LiquidError 'expected a boolean from uptodate, found coroutine' "
     "(the template cached by load_async carries the coroutine function _uptodate_async, which the synchronous is_up_to_date cannot await); the non-caching loader serves both requests",
-    [c23("fs", [get("t1", is_async=True), get("t1")]), c23("nsfs", [get("t1", "A", "kwarg", True), get("t1", "A", "kwarg")], keys=("t1", "A/t1"))])
+    [c23("fs", [get("t1", is_async=True), get("t1")]), c23("nsfs", [get("t1", "A", "kwarg", True), get("t1", "A", "kwarg")], keys=("t1", "A/t1"))], "3881a11")
+add("C23", "fixed", "fs:outcome-differs:FileNotFoundError-vs-twin-TemplateNotFoundError:sync",
+    "with auto_reload on, the request after a cached template's file had been deleted let FileNotFoundError escape from the file system loaders' up-to-date check (sync and async); the non-caching loader raises TemplateNotFoundError",
+    [c23("fs", [get("t1"), {"op": "delete", "key": "t1"}, get("t1")]), c23("fs", [get("t1", is_async=True), {"op": "delete", "key": "t1"}, get("t1", is_async=True)]),
+     c23("nsfs", [get("t1", "A", "kwarg"), {"op": "delete", "key": "A/t1"}, get("t1", "A", "kwarg")], keys=("t1", "A/t1"))], "4479d38")
 add("C23", "fixed", "dict:stale-source-after-edit:sync", "CachingDictLoader / caching choice loader over dict loaders with auto_reload=True kept serving the first parsed version after the dictionary entry was replaced (DictLoader gave no uptodate callable)",
     [c23("dict", [get("t1"), {"op": "edit", "key": "t1"}, get("t1")]), c23("choice", [get("t1", "A", "kwarg", True), {"op": "edit", "key": "A/t1"}, get("t1", "A", "kwarg", True)], keys=("t1", "A/t1")),
      c23("nsdict", [get("t1", "B", "context"), {"op": "edit", "key": "B/t1"}, get("t1", "B", "context")], keys=("t1", "B/t1"))], "f7e95bd")
